@@ -461,6 +461,8 @@ def map_class(name):
         return "shrink"
     if name in MAP_CLEAR:
         return "clear"
+    if name in ("clone_from", "clone_into"):
+        return "replace"   # the whole map is overwritten by a copy of another one
     if name in MAP_RETAIN:
         return "retain"
     if name in MAP_REORDER:
